@@ -1541,8 +1541,10 @@ store is put in maintenance-mode to avoid reinserting items in the database.
 func (h *Hashgraph) Bootstrap() error {
 	if badgerStore, ok := h.Store.(*BadgerStore); ok {
 
+		flush := false
 		if !badgerStore.GetMaintenanceMode() {
 			defer badgerStore.SetMaintenanceMode(false)
+			flush = true
 		}
 
 		badgerStore.SetMaintenanceMode(true)
@@ -1588,6 +1590,17 @@ func (h *Hashgraph) Bootstrap() error {
 			}
 
 			index++
+		}
+
+		// The Blocks, Rounds and Frames derived from the Events are not written
+		// to the DB while the Events are replayed. If the process was killed
+		// between the write of an Event and the writes of what consensus derived
+		// from it, the DB does not hold them (or holds an older version), and
+		// they would be lost again when they get evicted from the cache.
+		if flush {
+			if err := badgerStore.flushBootstrap(); err != nil {
+				return err
+			}
 		}
 
 	}
